@@ -284,6 +284,16 @@ SuffixRules(e) ==
       }
     [] e.op = "suffixcfg" -> SortRules(e, "DRIFT09")
     [] e.op = "suffixstages" -> StageRules(e)
+    [] e.op = "trcopy" ->
+      (* trCopy / trPartialCopy on a situation of TrCopy.tla: the region is  *)
+      (* still a permutation of its members (what the pinned trPartialCopy   *)
+      (* broke), nothing outside the region moved; the exact arrays are      *)
+      (* compared with the model's by the orchestrator (DRIFT)               *)
+      LET reg == (e.first + 1)..e.last IN
+      { <<"DRIFT09.trcopy_perm",
+          /\ Len(e.sa_after) = Len(e.sa)
+          /\ { e.sa_after[i] : i \in reg } = { e.sa[i] : i \in reg }
+          /\ \A i \in 1..Len(e.sa) : i \notin reg => e.sa_after[i] = e.sa[i]>> }
     [] e.op = "segments" ->
       LET pre == IsSAlinear(e.t, e.sa, e.sainv) /\ IsLCP(e.t, e.sa, e.lcp) IN
       IF e.minlen > e.maxlen \/ e.minlen < 0 THEN {}        \* outside the quantifier of C10 (only: no panic)
@@ -295,7 +305,7 @@ SuffixRules(e) ==
                   <<"C10.lcp_untouched", e.lcp_after = e.lcp>> }
     [] e.op = "panic" ->
       IF e.in = "segments" THEN { <<"C10.no_panic", FALSE>> }
-      ELSE IF e.in \in {"suffixcfg", "suffixstages"} THEN { <<"DRIFT09.no_panic", FALSE>> }
+      ELSE IF e.in \in {"suffixcfg", "suffixstages", "trcopy"} THEN { <<"DRIFT09.no_panic", FALSE>> }
       ELSE { <<"C09.no_panic", FALSE>> }
     [] e.op = "timeout" ->
       IF e.in = "segments" THEN { <<"C10.no_hang", FALSE>> } ELSE { <<"C09.no_hang", FALSE>> }
